@@ -339,6 +339,9 @@ LEVEL_TEXT = (
 LEVEL_NOTE = (
     'Trusted: Coq kernel + vm_compute; the hand-written LTS, tied to the code by replaying (killed run, rerun) traces of the real '
     'application for every commit/request kill point of the listed sites; SQLite atomic durable commits under process kill; the '
-    'kill plans. Not modelled: robots.txt, cookies, FTP, WARC/file output of the interrupted item, the >= 1000-children mid-scrape flush.')
+    'kill plans. One listed site runs with the database named by --database-uri (generic SQLAlchemy table class), one with --convert-links, '
+    'whose kill points extend into the link-conversion stage that follows the crawl (the conversion stage itself is not in the model: only '
+    'that it requests nothing and leaves the URL rows alone is observed). '
+    'Not modelled: robots.txt, cookies, FTP, WARC/file output of the interrupted item, the >= 1000-children mid-scrape flush.')
 TECHNIQUE = ('Coq invariants over an LTS with a crash step (all crash points, all interleavings); vm_compute trace replay of '
              'exhaustively enumerated kill/rerun pairs of the real application')
